@@ -44,3 +44,21 @@ pub proof fn lemma_fed_length(b: Seq<u32>, ck: Seq<u8>, t: Seq<u8>, d: Seq<u8>)
         lemma_fed_length(b, ck, t, d.drop_last());
     }
 }
+
+// C15: any property of the checksum that holds initially and after every single checksum
+// update (hypothesis = leaf obligations checksum.update1.48: result <= 48 for ALL inputs;
+// new(): 0) holds after feeding any data.  Hence generated 48-bucket hashes carry a valid
+// checksum.
+pub uninterp spec fn ck_valid(ck: Seq<u8>) -> bool;
+pub proof fn lemma_checksum_invariant(s: St, d: Seq<u8>)
+    requires
+        ck_valid(s.ck),
+        forall|ck: Seq<u8>, c: u8, p: u8| #[trigger] ck_valid(ck_upd(ck, c, p)),
+    ensures ck_valid(feed(s, d).ck)
+    decreases d.len()
+{
+    reveal_with_fuel(feed, 2);
+    if d.len() > 0 {
+        lemma_checksum_invariant(s, d.drop_last());
+    }
+}
